@@ -58,6 +58,9 @@ func main() {
 	list := flag.Bool("list", false, "print the job names and exit")
 	workers := flag.Int("workers", runtime.NumCPU(), "")
 	noReplay := flag.Bool("noreplay", false, "skip the real-loop replay of every state (debugging only)")
+	grid := flag.String("grid", "", "run a bounded-exhaustive grid check instead of a BFS job: c04 | c05 | c06")
+	shard := flag.Int("shard", 0, "")
+	nshards := flag.Int("nshards", 1, "")
 	prof := flag.String("cpuprofile", "", "")
 	flag.Parse()
 	if *prof != "" {
@@ -70,6 +73,29 @@ func main() {
 		for range logger.Messages {
 		}
 	}()
+	if *grid != "" {
+		res := vutil.NewResult()
+		func() {
+			defer func() {
+				if r := recover(); r != nil {
+					res.Infra = fmt.Sprintf("panic in grid harness: %v\n%s", r, debug.Stack())
+				}
+			}()
+			switch *grid {
+			case "c04":
+				gridC04(res, *tier, *shard, *nshards)
+			case "c05":
+				gridC05(res, *tier, *shard, *nshards)
+			case "c06":
+				gridC06(res, *tier, *shard, *nshards)
+			}
+		}()
+		res.Write(*outPath)
+		if res.Infra != "" {
+			os.Exit(2)
+		}
+		return
+	}
 	jobs := jobsFor(*prop, *tier)
 	if *list {
 		for i, j := range jobs {
